@@ -748,29 +748,363 @@ Lemma advanced_tick_more s i x s' o y :
   i_adv y = i_adv x /\ (i_armed y = false -> i_cnt y <= 0) /\
   (((i_last x =? STATE_INACTIVE) || toggles x) = true -> MULTICLICK_TIME_MS * 1000 <= u32 (now32 s - i_lsc x) -> i_cnt y = 0).
 Proof.
-  unfold advanced_tick. cbv zeta. intros H G Ha Gy. revert H.
+  unfold advanced_tick. cbv zeta. remember (MULTICLICK_TIME_MS * 1000) as MC eqn:EMC. intros H G Ha Gy. revert H.
   match goal with |- (match ?T with (_, _) => _ end = _) -> _ => set (TT := T) end.
   assert (P : forall s1 x1 o1, TT = (s1, x1, o1) ->
             i_last x1 = i_last x /\ i_type x1 = i_type x /\ i_lsc x1 = i_lsc x /\ i_adv x1 = i_adv x /\
             (i_armed x1 = false -> i_cnt x1 <= 0) /\ (exists z, getn (inputs s1) i = Some z)).
   { unfold TT. intros s1 x1 o1.
-    brk; intros E; inversion E; subst; cbn [i_last i_type i_lsc i_adv i_armed i_cnt upd_in];
+    brk; intros E; inversion E; subst; clear E;
+      repeat match goal with
+      | K : (_, _) = (_, _) |- _ => inversion K; subst; clear K
+      | K : context [if ?c then _ else _] |- _ => destruct c eqn:?
+      | K : context [match ?t with _ => _ end] |- _ => destruct t eqn:?
+      end;
+      cbn [i_last i_type i_lsc i_adv i_armed i_cnt upd_in];
       repeat match goal with
       | K : input_start_cfg _ = _ |- _ => apply input_start_cfg_out in K; destruct K as [[? ?]|(? & ? & K & _)]; subst
       end;
       (split; [reflexivity|]); (split; [reflexivity|]); (split; [reflexivity|]); (split; [reflexivity|]);
       (split; [try (intros; lia); try (intros; congruence); try (destruct (hold_enabled _); intros; try lia; congruence)|]);
       try (eexists; exact G); try (eexists; cbn [inputs set_input with_inputs]; eapply getn_setn_same; exact G);
-      try (eexists; rewrite K; cbn [inputs set_input with_inputs]; eapply getn_setn_same; exact G). }
+      try (match goal with E : inputs ?a = inputs _ |- exists z, getn (inputs ?a) _ = Some z => eexists; rewrite E; cbn [inputs set_input with_inputs]; eapply getn_setn_same; exact G end). }
   destruct TT as [[s1 x1] o1]. destruct (P s1 x1 o1 eq_refl) as (L1 & L2 & L3 & L4 & L5 & (z & Gz)).
   intros H; inversion H; subst s' o. cbn [inputs set_input with_inputs] in Gy. rewrite (getn_setn_same _ _ _ _ Gz) in Gy. inversion Gy; subst y. clear Gy.
   assert (TG : toggles x1 = toggles x) by (unfold toggles; rewrite L2; reflexivity).
   rewrite L1, TG, L3.
   destruct ((i_last x =? STATE_INACTIVE) || toggles x) eqn:EC.
-  - destruct (MULTICLICK_TIME_MS * 1000 <=? u32 (now32 s - i_lsc x)) eqn:EM.
-    + cbn. repeat split; auto; intros; lia.
+  - destruct (MC <=? u32 (now32 s - i_lsc x)) eqn:EM.
+    + cbn [i_adv i_armed i_cnt upd_in]. split; [exact L4|]. split; [intros _; lia|intros _ _; reflexivity].
     + apply Z.leb_gt in EM. destruct (i_maxc x1 <=? i_cnt x1).
-      * destruct (i_maxc x1 <=? 1); cbn; (split; [auto|]); (split; [intros; try lia; auto|intros; lia]).
-      * split; [auto|]. split; [auto|intros; lia].
-  - split; [auto|]. split; [auto|intros; discriminate].
+      * destruct (i_maxc x1 <=? 1); cbn [i_adv i_armed i_cnt upd_in]; (split; [exact L4|]); (split; [intros K; try lia; auto|intros _ K; lia]).
+      * split; [exact L4|]. split; [exact L5|intros _ K; lia].
+  - split; [exact L4|]. split; [exact L5|intros K; discriminate].
+Qed.
+
+Definition counted_adv (x : input) (stt : Z) : bool := (stt =? STATE_ACTIVE) || toggles x.
+
+Lemma advanced_change_cnt s i x stt s' o y :
+  advanced_change s i x stt = (s', o) -> getn (inputs s) i <> None -> getn (inputs s') i = Some y -> -128 <= i_cnt x <= 127 ->
+  i_armed y = true /\ i_adv y = true /\ i_type y = i_type x /\
+  i_cnt y <= i_cnt x + (if counted_adv x stt then 1 else 0) /\
+  (forall t, In (EnterCfg t) o -> toggle_enabled x = true /\ counted_adv x stt = true /\ PRESS_COUNT <= i_cnt x + 1).
+Proof.
+  unfold advanced_change, counted_adv. intros H Gn Gy Hc. pose proof (cf_count consts_ok) as HC.
+  pose proof (s8_le (i_cnt x + 1) ltac:(lia)) as S8.
+  destruct (getn (inputs s) i) as [x0|] eqn:G; [clear Gn|congruence].
+  destruct (negb (i_cnt x =? -1)) eqn:E1; cbn [andb] in H.
+  - destruct ((stt =? STATE_ACTIVE) || toggles x) eqn:E2.
+    + destruct (toggle_enabled x && (PRESS_COUNT <=? s8 (i_cnt x + 1))) eqn:ET.
+      * destruct (input_start_cfg (set_input s i (upd_in x (i_last x) 0 (i_lsc x) false true))) as [s1 o1] eqn:EI.
+        apply input_start_cfg_upd in EI. destruct EI as [[U1 _] Ho].
+        assert (G1 : getn (inputs s1) i = Some (upd_in x (i_last x) 0 (i_lsc x) false true)) by (rewrite U1; eapply getn_setn_same; eauto).
+        rewrite G1 in H. inversion H; subst s' o. cbn [inputs set_input with_inputs] in Gy. rewrite (getn_setn_same _ _ _ _ G1) in Gy.
+        inversion Gy; subst y. cbn. apply andb_true_iff in ET. destruct ET as [T1 T2]. apply Z.leb_le in T2.
+        split; [auto|]. split; [auto|]. split; [auto|]. split; [lia|]. intros t _. split; [auto|]. split; [auto|lia].
+      * inversion H; subst s' o. cbn [inputs set_input with_inputs] in Gy. rewrite (getn_setn_same _ _ _ _ G) in Gy. inversion Gy; subst y. cbn.
+        split; [auto|]. split; [auto|]. split; [auto|]. split; [lia|intros t []].
+    + inversion H; subst s' o. cbn [inputs set_input with_inputs] in Gy. rewrite (getn_setn_same _ _ _ _ G) in Gy. inversion Gy; subst y. cbn.
+      split; [auto|]. split; [auto|]. split; [auto|]. split; [lia|intros t []].
+  - inversion H; subst s' o. cbn [inputs set_input with_inputs] in Gy. rewrite (getn_setn_same _ _ _ _ G) in Gy. inversion Gy; subst y. cbn.
+    split; [auto|]. split; [auto|]. split; [auto|]. split; [destruct ((stt =? STATE_ACTIVE) || toggles x); lia|intros t []].
+Qed.
+
+(* specification-side run length for the ActionTrigger handler: state changes of input i that count (to "active", or any
+   change of a toggle switch / motion sensor) since the last time-out tick: a Tick of that input at least MULTICLICK_TIME_MS
+   (32-bit difference) after its last change while it is released or is a toggle type *)
+Definition tog (ty : Z) : bool := (ty =? TYPE_BISTABLE) || (ty =? TYPE_MOTION).
+Definition aacc : Type := (Z * Z * Z * Z)%type.          (* time, notified state, time of the last change, run length *)
+Definition astep (i ty : Z) (a : aacc) (e : ev) : aacc :=
+  let '(t, ph, tl, n) := a in
+  match e with
+  | Time dt => (t + dt, ph, tl, n)
+  | Notify j stt =>
+      if (j =? i) && negb (stt =? ph) then (t, stt, t, n + (if (stt =? STATE_ACTIVE) || tog ty then 1 else 0)) else a
+  | Tick j =>
+      if (j =? i) && ((ph =? STATE_INACTIVE) || tog ty) && (MULTICLICK_TIME_MS * 1000 <=? u32 (t - tl)) then (t, ph, tl, 0) else a
+  | _ => a
+  end.
+Definition arun (i ty : Z) (evs : list ev) : aacc := fold_left (astep i ty) evs (0, STATE_INACTIVE, 0, 0).
+Definition arun_n (i ty : Z) (evs : list ev) : Z := snd (arun i ty evs).
+
+Lemma arun_snoc i ty pre e : arun i ty (pre ++ [e]) = astep i ty (arun i ty pre) e.
+Proof. unfold arun. rewrite fold_left_app. reflexivity. Qed.
+Lemma hist_now i pre : h_now (hist i pre) = clock pre.
+Proof.
+  induction pre as [|e pre IH] using rev_ind; [reflexivity|]. rewrite hist_snoc, clock_snoc.
+  destruct e; cbn [hstep h_now]; auto. - destruct ((i0 =? i) && negb (stt =? h_phys (hist i pre))); cbn; auto. - rewrite IH; reflexivity.
+Qed.
+Lemma arun_hist i ty pre :
+  let '(t, ph, tl, n) := arun i ty pre in
+  t = clock pre /\ ph = h_phys (hist i pre) /\ tl = h_t (hist i pre) /\ 0 <= n.
+Proof.
+  induction pre as [|e pre IH] using rev_ind; [cbn; repeat split; lia|].
+  rewrite arun_snoc, clock_snoc, hist_snoc. destruct (arun i ty pre) as [[[t ph] tl] n]. destruct IH as (I1 & I2 & I3 & I4). subst.
+  destruct e; cbn [astep hstep h_phys h_t]; try (repeat split; auto; fail).
+  - destruct ((i0 =? i) && negb (stt =? h_phys (hist i pre))); cbn [h_phys h_t h_now].
+    + rewrite hist_now. repeat split; auto. destruct ((stt =? STATE_ACTIVE) || tog ty); lia.
+    + repeat split; auto.
+  - destruct ((i0 =? i) && ((h_phys (hist i pre) =? STATE_INACTIVE) || tog ty) && (MULTICLICK_TIME_MS * 1000 <=? u32 (clock pre - h_t (hist i pre))));
+      repeat split; auto; lia.
+Qed.
+
+Lemma tick_other_input s j s' o i :
+  tick s j = (s', o) -> halted s' = false -> j <> i ->
+  (forall x, getn (inputs s) j = Some x -> -128 <= i_cnt x <= 127) ->
+  getn (inputs s') i = getn (inputs s) i.
+Proof.
+  unfold tick. intros H Hh N Hc. destruct (getn (inputs s) j) as [x|] eqn:G; [|inversion H; reflexivity].
+  destruct (i_armed x); [|inversion H; reflexivity]. pose proof (Hc x eq_refl) as Hx.
+  destruct (i_adv x).
+  - destruct (advanced_tick_spec s j x s' o Hx H) as (x' & [U _] & _). rewrite U. apply getn_setn_other; auto.
+  - destruct (legacy_tick_spec s j x s' o H) as [[E1 E2]|[_ [(x' & [U _] & _)|(Q1 & _)]]]; [subst; reflexivity| |congruence].
+    rewrite U. apply getn_setn_other; auto.
+Qed.
+
+(* events other than a notification or a tick of input i leave its record alone, except an ActionTrigger configuration *)
+Lemma step_input_same (CF : consts_facts) s pre e s' o i :
+  inv s pre -> live s -> step s e = (s', o) -> halted s' = false -> (forall stt, e <> Notify i stt) -> e <> Tick i ->
+  forall y, getn (inputs s') i = Some y ->
+  exists x, getn (inputs s) i = Some x /\ (y = x \/ exists m, y = set_active_triggers x m).
+Proof.
+  intros I [Lb Lh] H Hh N NT y Gy. pose proof I as [In Ii].
+  assert (RNG : forall j x, getn (inputs s) j = Some x -> -128 <= i_cnt x <= 127).
+  { intros j x G. destruct (Ii j x G) as (_ & A & _). exact A. }
+  assert (SAME : getn (inputs s') i = getn (inputs s) i -> exists x, getn (inputs s) i = Some x /\ (y = x \/ exists m, y = set_active_triggers x m)).
+  { intros E. rewrite E in Gy. exists y. auto. }
+  unfold step in H. destruct e; rewrite ?Lb, ?Lh in H; cbn [negb orb] in H.
+  - inversion H; subst. apply SAME; reflexivity.
+  - inversion H; subst. apply SAME. destruct (connectable s); reflexivity.
+  - inversion H; subst. apply SAME. destruct (pre_iter_fields s) as (_ & _ & _ & A & _). rewrite A. reflexivity.
+  - destruct (srv_frame_cause _ _ _ _ _ H) as ([F|(F & ch & m & HI)] & _).
+    + apply SAME. destruct F as (A & _). rewrite A. reflexivity.
+    + rewrite HI in Gy. unfold at_cfg in Gy. apply getn_map in Gy. destruct Gy as (x & Gx & ->). exists x. split; [auto|].
+      destruct (i_chan x =? ch); [right; eexists; reflexivity|left; reflexivity].
+  - assert (NE : i0 <> i) by (intros ->; apply (N stt); reflexivity).
+    apply SAME. apply (notify_other_input CF _ _ _ _ _ i H Hh NE (RNG i0)).
+  - assert (NE : i0 <> i) by (intros ->; apply NT; reflexivity).
+    apply SAME. apply (tick_other_input _ _ _ _ i H Hh NE (RNG i0)).
+  - inversion H; subst. apply SAME; reflexivity.
+  - unfold ap_timer in H. destruct (cfgtmr s =? 1).
+    + destruct (exit_to s); inversion H; subst; apply SAME; reflexivity.
+    + destruct (cfgtmr s =? 2).
+      * apply restart_out in H. destruct H as [H _]. congruence.
+      * inversion H; subst. apply SAME; reflexivity.
+  - inversion H; subst. apply SAME. unfold rs_env. destruct (getn (rss s) idx); reflexivity.
+Qed.
+
+Lemma sat_armed x m :
+  i_type (set_active_triggers x m) = i_type x /\ i_adv (set_active_triggers x m) = i_adv x /\
+  ((i_cnt (set_active_triggers x m) = i_cnt x /\ i_armed (set_active_triggers x m) = i_armed x) \/
+   (i_cnt (set_active_triggers x m) = 0 /\ i_armed (set_active_triggers x m) = false)).
+Proof.
+  unfold set_active_triggers.
+  match goal with |- context [let '(a, b) := ?T in _] => destruct T as [rel drel] end.
+  cbn [i_type i_adv i_cnt i_armed]. split; [reflexivity|]. split; [reflexivity|].
+  match goal with |- context [if ?c then _ else _] => destruct c end; auto.
+Qed.
+
+Lemma ev_eq_tick i (e : ev) : e = Tick i \/ e <> Tick i.
+Proof. destruct e; try (right; discriminate). destruct (Z.eq_dec i0 i) as [->|N]; [left; reflexivity|right; intros E; inversion E; congruence]. Qed.
+
+Section AdvancedRun.
+Variable CF : consts_facts.
+Variables i ty : Z.
+
+(* input i has type ty and is served by the ActionTrigger handler (which implies: not yet in configuration mode) *)
+Definition adv_in (s : st) : Prop := forall x, getn (inputs s) i = Some x -> i_type x = ty /\ advanced s x = true.
+Definition ainv (s : st) (pre : list ev) : Prop :=
+  forall x, getn (inputs s) i = Some x ->
+    i_cnt x <= arun_n i ty pre /\ (i_armed x = false -> i_cnt x <= 0) /\ (i_armed x = true -> i_adv x = true).
+
+Lemma arun_n_other pre e : (forall stt, e <> Notify i stt) -> e <> Tick i -> arun_n i ty (pre ++ [e]) = arun_n i ty pre.
+Proof.
+  intros N NT. unfold arun_n. rewrite arun_snoc. destruct (arun i ty pre) as [[[t ph] tl] n]. destruct e; cbn [astep snd]; auto.
+  - destruct (i0 =? i) eqn:E; [apply Z.eqb_eq in E; subst; destruct (N stt eq_refl)|reflexivity].
+  - destruct (i0 =? i) eqn:E; [apply Z.eqb_eq in E; subst; destruct (NT eq_refl)|reflexivity].
+Qed.
+
+Lemma tog_toggles x : i_type x = ty -> toggles x = tog ty.
+Proof. unfold toggles, tog. intros ->. reflexivity. Qed.
+
+Lemma step_ainv s pre e s' o :
+  Forall ev_ok pre -> inv s pre -> live s -> adv_in s -> ainv s pre ->
+  step s e = (s', o) -> halted s' = false ->
+  ainv s' (pre ++ [e]) /\
+  (forall stt t, e = Notify i stt -> In (EnterCfg t) o ->
+     exists x, getn (inputs s) i = Some x /\ toggle_enabled x = true /\ PRESS_COUNT <= arun_n i ty (pre ++ [e])).
+Proof.
+  intros Hok I L AI A H Hh. pose proof L as [Lb Lh]. pose proof I as [In Ii].
+  pose proof (arun_hist i ty pre) as AH. unfold ainv, arun_n in *.
+  destruct (classic_notify i e) as [[stt ->]|N].
+  - (* notification of input i *)
+    unfold step in H. rewrite Lb, Lh in H. cbn [negb orb] in H. unfold notify in H.
+    rewrite arun_snoc. destruct (arun i ty pre) as [[[t ph] tl] n] eqn:EA. destruct AH as (H1 & H2 & H3 & H4). cbn [astep]. rewrite Z.eqb_refl. cbn [andb].
+    destruct (getn (inputs s) i) as [x|] eqn:G.
+    2:{ inversion H; subst. split; [intros y Gy; congruence|intros ? ? _ []]. }
+    destruct (A x eq_refl) as (A1 & A2 & A3). destruct (Ii i x G) as (L1 & L2 & L3 & L4). destruct (AI x G) as (T1 & ADV). cbn [snd] in A1.
+    assert (NN : forall c : bool, n <= snd (if negb (stt =? ph) then (t, stt, t, n + (if c then 1 else 0)) else (t, ph, tl, n))).
+    { intros c. destruct (negb (stt =? ph)); cbn [snd]; destruct c; lia. }
+    destruct (silent s && (u32 (now32 s - u32 (boot32 s)) <? SILENT_MS * 1000)).
+    { inversion H; subst s' o. split; [|intros ? ? _ []]. intros y Gy. cbn [inputs set_input with_inputs] in Gy.
+      rewrite (getn_setn_same _ _ _ _ G) in Gy. inversion Gy; subst y. cbn [i_cnt i_armed i_adv upd_in].
+      split; [eapply Z.le_trans; [exact A1|apply NN]|auto]. }
+    destruct (i_last x =? stt) eqn:EL.
+    { inversion H; subst s' o. split; [|intros ? ? _ []]. intros y Gy. cbn in Gy. rewrite G in Gy. inversion Gy; subst y.
+      split; [eapply Z.le_trans; [exact A1|apply NN]|auto]. }
+    apply Z.eqb_neq in EL. assert (E : (stt =? ph) = false) by (apply Z.eqb_neq; congruence). rewrite E. cbn [negb snd].
+    change (advanced (set_silent s false) x) with (advanced s x) in H. rewrite ADV in H.
+    set (s0 := set_silent s false) in *. set (x1 := upd_in x stt (i_cnt x) (i_lsc x) false true) in *.
+    assert (G0 : getn (inputs s0) i <> None) by (cbn; congruence).
+    assert (CA : counted_adv x1 stt = ((stt =? STATE_ACTIVE) || tog ty)).
+    { unfold counted_adv. rewrite (tog_toggles x1); [reflexivity|exact T1]. }
+    split.
+    + intros y Gy. destruct (advanced_change_cnt s0 i x1 stt s' o y H G0 Gy L2) as (B1 & B2 & B3 & B4 & _).
+      rewrite CA in B4. cbn [i_cnt x1 upd_in] in B4. split; [lia|]. split; [congruence|auto].
+    + intros stt' tt E' Ht. inversion E'; subst stt'.
+      assert (GY : exists y, getn (inputs s') i = Some y).
+      { destruct (advanced_change_spec CF s0 i x1 stt s' o L2 G0 H) as (x' & [U _] & _). exists x'. rewrite U.
+        destruct (getn (inputs s0) i) eqn:GG; [eapply getn_setn_same; eauto|congruence]. }
+      destruct GY as [y Gy]. destruct (advanced_change_cnt s0 i x1 stt s' o y H G0 Gy L2) as (_ & _ & _ & _ & B5).
+      destruct (B5 tt Ht) as (C1 & C2 & C3). exists x. split; [auto|]. split; [exact C1|]. rewrite CA in C2. rewrite C2. cbn [i_cnt x1 upd_in] in C3. lia.
+  - split; [|intros stt t E; destruct (N stt E)].
+    destruct (ev_eq_tick i e) as [->|NT].
+    + (* timer tick of input i *)
+      unfold step in H. rewrite Lb, Lh in H. cbn [negb orb] in H. unfold tick in H.
+      rewrite arun_snoc. destruct (arun i ty pre) as [[[t ph] tl] n] eqn:EA. destruct AH as (H1 & H2 & H3 & H4). cbn [astep]. rewrite Z.eqb_refl. cbn [andb].
+      intros y Gy.
+      assert (NN : snd (if ((ph =? STATE_INACTIVE) || tog ty) && (MULTICLICK_TIME_MS * 1000 <=? u32 (t - tl)) then (t, ph, tl, 0) else (t, ph, tl, n)) = n \/
+                   snd (if ((ph =? STATE_INACTIVE) || tog ty) && (MULTICLICK_TIME_MS * 1000 <=? u32 (t - tl)) then (t, ph, tl, 0) else (t, ph, tl, n)) = 0).
+      { destruct (((ph =? STATE_INACTIVE) || tog ty) && (MULTICLICK_TIME_MS * 1000 <=? u32 (t - tl))); auto. }
+      destruct (getn (inputs s) i) as [x|] eqn:G.
+      2:{ inversion H; subst. congruence. }
+      destruct (A x eq_refl) as (A1 & A2 & A3). destruct (Ii i x G) as (L1 & L2 & L3 & L4). destruct (AI x G) as (T1 & ADV). cbn [snd] in A1.
+      destruct (i_armed x) eqn:Ea.
+      2:{ inversion H as [[Es Eo]]. rewrite <- Es in Gy. rewrite G in Gy. inversion Gy as [Ey]. rewrite <- Ey. specialize (A2 eq_refl). rewrite Ea.
+          split; [clear NN; destruct (((ph =? STATE_INACTIVE) || tog ty) && (MULTICLICK_TIME_MS * 1000 <=? u32 (t - tl))); cbn [snd]; lia|]. split; [auto|intros; discriminate]. }
+      rewrite (A3 eq_refl) in H. destruct (L4 eq_refl) as (C1 & C2 & C3 & C4 & C5).
+      destruct (advanced_tick_more s i x s' o y H G Ea Gy) as (M1 & M2 & M3).
+      destruct (advanced_tick_spec s i x s' o L2 H) as (x' & U & _ & _ & _ & _ & _ & K6 & _).
+      rewrite (upd_result_same _ _ _ _ _ _ U G Gy) in *.
+      split; [|split; [exact M2|intros _; rewrite M1; auto]].
+      destruct (((ph =? STATE_INACTIVE) || tog ty) && (MULTICLICK_TIME_MS * 1000 <=? u32 (t - tl))) eqn:EC; cbn [snd]; [|lia].
+      apply andb_true_iff in EC. destruct EC as [EC1 EC2]. apply Z.leb_le in EC2.
+      rewrite M3; [lia| |].
+      * rewrite (tog_toggles x T1), L1, <- H2. exact EC1.
+      * unfold now32. rewrite C2, u32_diff, In, <- H1, <- H3. exact EC2.
+    + (* any other event *)
+      intros y Gy. pose proof (arun_n_other pre e N NT) as EN. unfold arun_n in EN. rewrite EN.
+      destruct (step_input_same CF s pre e s' o i I L H Hh N NT y Gy) as (x & Gx & [->|[m ->]]).
+      * apply (A x Gx).
+      * destruct (A x Gx) as (A1 & A2 & A3). destruct (sat_armed x m) as (S1 & S2 & [[S3 S4]|[S3 S4]]); rewrite S3, S4, ?S2.
+        -- auto.
+        -- destruct (arun i ty pre) as [[[t ph] tl] n]. cbn [snd]. split; [tauto|]. split; [intros; lia|intros; discriminate].
+Qed.
+End AdvancedRun.
+
+Section AdvancedTheorem.
+Variable CF : consts_facts.
+Variables i ty : Z.
+
+Lemma run_adv : forall p1 s pre stt t,
+  Forall ev_ok pre -> Forall ev_ok p1 -> inv s pre -> live s -> ainv i ty s pre ->
+  (forall p q, p1 = p ++ q -> adv_in i ty (fst (run_from s p))) ->
+  In (EnterCfg t) (snd (step (fst (run_from s p1)) (Notify i stt))) ->
+  exists x, getn (inputs (fst (run_from s p1))) i = Some x /\ toggle_enabled x = true /\
+            PRESS_COUNT <= arun_n i ty (pre ++ p1 ++ [Notify i stt]).
+Proof.
+  induction p1 as [|e r IH]; intros s pre stt t Hp He I L A LR Ht; cbn [run_from fst app] in *.
+  - destruct (step s (Notify i stt)) as [s' o] eqn:E. cbn [snd] in Ht.
+    assert (Hh' : halted s' = false).
+    { destruct L as [Lb Lh]. unfold step in E. rewrite Lb, Lh in E. cbn [negb orb] in E. eapply notify_enter_not_halted; eauto. }
+    assert (AI : adv_in i ty s) by (apply (LR [] []); reflexivity).
+    destruct (step_ainv CF i ty s pre _ s' o Hp I L AI A E Hh') as [_ B]. apply (B stt t eq_refl Ht).
+  - inversion He as [|? ? He1 He2]; subst.
+    destruct (step s e) as [s1 o1] eqn:E. destruct (run_from s1 r) as [s2 o2] eqn:R. cbn [fst] in *.
+    assert (S2 : s2 = fst (run_from s1 r)) by (rewrite R; reflexivity).
+    destruct (halted s1) eqn:Hh.
+    { exfalso. rewrite run_from_dead in R; [|right; destruct (step_inv_cause CF s pre e s1 o1 Hp He1 I L E) as (_ & B & _); exact B|right; auto].
+      inversion R as [[Es Eo]]. rewrite <- Es in Ht. unfold step in Ht. rewrite Hh, orb_true_r in Ht. destruct Ht. }
+    destruct (step_inv_cause CF s pre e s1 o1 Hp He1 I L E) as (I1 & B1 & _). specialize (I1 Hh).
+    assert (AI : adv_in i ty s) by (apply (LR [] (e :: r)); reflexivity).
+    destruct (step_ainv CF i ty s pre e s1 o1 Hp I L AI A E Hh) as [A1 _].
+    assert (Hp1 : Forall ev_ok (pre ++ [e])) by (apply Forall_app; split; auto).
+    assert (LR1 : forall p q, r = p ++ q -> adv_in i ty (fst (run_from s1 p))).
+    { intros p q Epq. specialize (LR (e :: p) q). cbn [app run_from] in LR. rewrite E in LR.
+      destruct (run_from s1 p) as [sa oa]. cbn [fst] in *. apply LR. rewrite Epq. reflexivity. }
+    rewrite S2 in Ht. specialize (IH s1 (pre ++ [e]) stt t Hp1 He2 I1 (conj B1 Hh) A1 LR1 Ht).
+    rewrite <- S2 in IH. rewrite <- app_assoc in IH. exact IH.
+Qed.
+End AdvancedTheorem.
+
+(* (b) for inputs in ActionTrigger mode: a toggle entry implies that the run length arun_n reached PRESS_COUNT: that many
+   counted state changes of the input without a time-out tick in between *)
+Lemma toggle_entry_advanced_thm : code_shape -> forall b32 bl fc ins rs pre stt t i ty,
+  Forall ev_ok pre ->
+  (forall p q, pre = p ++ q -> adv_in i ty (fst (run_from init (Boot b32 bl fc ins rs :: p)))) ->
+  let s1 := fst (run_from init (Boot b32 bl fc ins rs :: pre)) in
+  In (EnterCfg t) (snd (step s1 (Notify i stt))) ->
+  exists x, getn (inputs s1) i = Some x /\ toggle_enabled x = true /\ PRESS_COUNT <= arun_n i ty (pre ++ [Notify i stt]).
+Proof.
+  intros _ b32 bl fc ins rs pre stt t i ty Hok LR. cbv zeta. rewrite run_boot.
+  destruct (boot b32 bl fc ins rs) as [s0 o0] eqn:EB. destruct (boot_inv _ _ _ _ _ _ _ EB) as (I0 & L0 & _ & _).
+  assert (A0 : ainv i ty s0 []).
+  { intros x G. destruct I0 as [_ Ii]. destruct (Ii i x G) as (_ & _ & C & AR). cbn in C.
+    pose proof (boot_qall _ _ _ _ _ _ _ i EB x G) as (ref & chain & _). 
+    assert (FLD : i_cnt x <= 0 /\ i_armed x = false).
+    { unfold boot in EB.
+      match type of EB with context [if incomplete ?b then let '(s1, o) := cfgmode_start ?S in _ else _] => set (sb := S) in * end.
+      assert (INS : inputs s0 = inputs sb).
+      { destruct (incomplete _); [|inversion EB; reflexivity]. destruct (cfgmode_start sb) as [sx ox] eqn:EC. inversion EB; subst.
+        destruct (cfgmode_start_out _ _ _ EC) as [[_ ->]|(_ & _ & Ci & _)]; auto. }
+      rewrite INS in G. cbn [inputs sb] in G. apply getn_map in G. destruct G as (z & _ & ->).
+      destruct (i_at z <? 0); [cbn; split; [lia|reflexivity]|].
+      match goal with |- context [set_active_triggers ?X ?M] => destruct (sat_fields X M) as (_ & S5 & S6) end.
+      split; [rewrite S5; [lia|reflexivity]|apply S6; reflexivity]. }
+    destruct FLD as [F1 F2]. unfold arun_n. cbn. split; [lia|]. split; [intros; lia|intros K; congruence]. }
+  assert (LR0 : forall p q, pre = p ++ q -> adv_in i ty (fst (run_from s0 p))).
+  { intros p q E. specialize (LR p q E). rewrite run_boot, EB in LR. destruct (run_from s0 p). exact LR. }
+  destruct (run_from s0 pre) as [s1 o1] eqn:ER. cbn [fst]. intros Ht.
+  pose proof (run_adv consts_ok i ty pre s0 [] stt t (Forall_nil _) Hok I0 L0 A0 LR0) as K.
+  rewrite ER in K. cbn [fst app] in K. apply K. exact Ht.
+Qed.
+
+(* the time-out rule of the run length, stated on the history: a Tick of input i at least MULTICLICK_TIME_MS (32-bit
+   difference) after its last state change, while it is released or is a toggle type, clears the run *)
+Lemma arun_timeout_thm : forall i ty pre,
+  let '(t, ph, tl, n) := arun i ty pre in
+  ((ph =? STATE_INACTIVE) || tog ty) = true -> MULTICLICK_TIME_MS * 1000 <= u32 (t - tl) ->
+  arun_n i ty (pre ++ [Tick i]) = 0.
+Proof.
+  intros i ty pre. unfold arun_n. rewrite arun_snoc. destruct (arun i ty pre) as [[[t ph] tl] n]. intros H1 H2.
+  cbn [astep]. rewrite Z.eqb_refl, H1. apply Z.leb_le in H2. rewrite H2. reflexivity.
+Qed.
+
+Definition adv_inb (i ty : Z) (s : st) : bool :=
+  match getn (inputs s) i with Some x => (i_type x =? ty) && advanced s x | None => true end.
+Lemma adv_run_check i ty b evs :
+  forallb (fun p => adv_inb i ty (fst (run_from init (b :: p)))) (prefixes evs) = true ->
+  forall p q, evs = p ++ q -> adv_in i ty (fst (run_from init (b :: p))).
+Proof.
+  intros H p q E. rewrite forallb_forall in H. specialize (H p). rewrite E in H. specialize (H (prefixes_In p q)).
+  unfold adv_inb in H. intros x G. rewrite G in H. apply andb_true_iff in H. destruct H as [H1 H2]. apply Z.eqb_eq in H1. auto.
+Qed.
+
+(* a bistable configuration button with ActionTriggers TOGGLE_x2 | TOGGLE_x5 activated (ActionTrigger mode) *)
+Definition w_boot_at : ev :=
+  Boot 1 0 1 [in_of_ints [TYPE_BISTABLE; FLAG_CFG_BTN; 255; CAP_TG2 + CAP_TG5; CAP_TG2 + CAP_TG5; 4]] [w_rs].
+Definition w_adv_pre : list ev :=
+  [Time 500000] ++ concat (map (fun k => [Notify 0 (Z.of_nat (S k) mod 2); Time 100000; Tick 0]) (seq 0 9)).
+Lemma advanced_nonvacuous_thm :
+  let s1 := fst (run_from init (w_boot_at :: w_adv_pre)) in
+  Forall ev_ok w_adv_pre /\
+  (forall p q, w_adv_pre = p ++ q -> adv_in 0 TYPE_BISTABLE (fst (run_from init (w_boot_at :: p)))) /\
+  In (EnterCfg (now s1)) (snd (step s1 (Notify 0 0))) /\
+  arun_n 0 TYPE_BISTABLE (w_adv_pre ++ [Notify 0 0]) = 10 /\
+  (* nine toggles, the time-out tick 320 ms after the ninth, a tenth toggle: no entry *)
+  run (w_boot_at :: w_adv_pre ++ [Time 220000; Tick 0; Notify 0 0]) = [] /\
+  arun_n 0 TYPE_BISTABLE (w_adv_pre ++ [Time 220000; Tick 0; Notify 0 0]) = 1.
+Proof.
+  cbv zeta. split; [apply ev_okb_ok; vm_compute; reflexivity|]. split; [apply adv_run_check; vm_compute; reflexivity|].
+  split; [vm_compute; left; reflexivity|]. repeat split; vm_compute; reflexivity.
 Qed.
